@@ -33,6 +33,16 @@ for d in bd:
     was = bool(m.get("false_alarm_checks"))
     if r["props"] and not was: newfa.append((bid, sorted(set(l.split()[1].split("|")[0] for l in r["fired"]))))
     if not r["props"] and was: fixedfa.append(bid)
+# the single-edit corpus (mutants/corpus.py): expectations are fixed there; the one declared miss is excepted
+cm = subprocess.run([sys.executable, V + "/mutants/run.py", "--corpus-only", "--jobs", str(jobs), "--json", "/tmp/regress_corpus.json"], env=ENV, capture_output=True, text=True)
+try:
+    cj = json.load(open("/tmp/regress_corpus.json"))
+    DECLARED = {"c01-rank128-atright-inverted"}
+    cmis = [(r["id"], r["expect"], r.get("got")) for r in cj["results"] if r.get("status") == "MISMATCH" and r["id"] not in DECLARED]
+    print("corpus: must-fire %s/%s, must-stay-silent %s/%s; MISMATCHES %s" % (cj["fire_ok"], cj["fire_total"], cj["silent_ok"], cj["silent_total"], cmis))
+except Exception as e:
+    cmis = [("corpus run failed", str(e), cm.stderr[-300:])]
+    print("corpus:", cmis)
 print("seeds: %d, own check reports %d; LOST %s; gained %s" % (len(sd), sum(1 for d in sd if json.load(open(d + "/meta.json"))["property"] in res[os.path.basename(d)]["props"]), lost, gained))
 print("benign: %d, silent %d; NEW FALSE ALARMS %s; now silent %s" % (len(bd), sum(1 for d in bd if not res[os.path.basename(d)]["props"] and not res[os.path.basename(d)].get("error")), newfa, fixedfa))
-sys.exit(1 if (bad or lost or newfa or c.returncode != 0) else 0)
+sys.exit(1 if (bad or lost or newfa or cmis or c.returncode != 0) else 0)
